@@ -460,7 +460,13 @@ func (r *receiver) report(nmsgs int, sent []proto.Message, senderID string, sent
 	var base uint64
 	haveBase := false
 	for _, d := range r.got {
-		if d.idx >= 0 && d.idx < len(sent) && sent[d.idx] != nil && oracle == "" {
+		sameBytes := false
+		if d.idx >= 0 && d.idx < len(sent) && sent[d.idx] != nil {
+			wb, _ := proto.Marshal(sent[d.idx])
+			sameBytes = bytes.Equal(wb, d.raw)
+		}
+		// nonce and multiplicity are judged for deliveries that ARE a sent message (anything else is reported below)
+		if sameBytes && oracle == "" {
 			if opt.nonceIsIdx && d.nonce != uint64(d.idx) && !opt.nonceAlso[d.idx][d.nonce] {
 				oracle = fmt.Sprintf("nonce-altered: message %d was sent with request nonce %d and delivered with %d", d.idx, d.idx, d.nonce)
 			}
